@@ -342,13 +342,23 @@ Fixpoint clone_nodes (h : state) (allow : bool) (own : list valobj) (pend : pend
    re-assembled from Graph.clone(allow_outer_scope_values=True) (+ Function.clone, same configurations). *)
 Definition clone (h : state) (deep allow : bool) : state * res unit :=
   let gin' := fresh_from (s_nextv h) (s_gin h) in
-  let m0 := rev (combine (s_gin h) gin') in
-  let names0 := map (fun p => (v_id (snd p), name_of h (fst p))) (combine (s_gin h) gin') in
-  let own := flat_map (fun p => if root_of h (node_scope h (fst p)) =? 0 then n_out (snd p) else []) (s_nodes h) in
-  match clone_nodes h allow own [] m0 (s_nextv h + Z.of_nat (length (s_gin h))) (s_nodes h) with
+  let binds := combine (s_gin h) gin' in
+  let names0 := map (fun p => (v_id (snd p), name_of h (fst p))) binds in
+  let is_main := fun p : Z * node => root_of h (node_scope h (fst p)) =? 0 in
+  let own := flat_map (fun p => if is_main p then n_out (snd p) else []) (s_nodes h) in
+  (* Model.clone: self.graph.clone() and func.clone() use one Cloner each — separate value maps: a function node
+     reading a main-graph value (or the reverse) is an "outer-scope value" for its cloner *)
+  let m_main := rev (firstn (sc_nmain (s_sc h)) binds) in
+  let m_func := rev (skipn (sc_nmain (s_sc h)) binds) in
+  match clone_nodes h allow own [] m_main (s_nextv h + Z.of_nat (length (s_gin h))) (filter is_main (s_nodes h)) with
   | None => (h, Raise RuntimeError)
-  | Some (nodes', names', next') =>
-      (mkSt (names0 ++ names' ++ s_names h) nodes' gin' (s_cfgs h) next' (s_nextc h) (s_ir h) (s_sc h), Ok tt)
+  | Some (nodes1, names1, next1) =>
+      match clone_nodes h allow own [] m_func next1 (filter (fun p => negb (is_main p)) (s_nodes h)) with
+      | None => (h, Raise RuntimeError)
+      | Some (nodes2, names2, next2) =>
+          (mkSt (names0 ++ names1 ++ names2 ++ s_names h) (nodes1 ++ nodes2) gin' (s_cfgs h) next2 (s_nextc h)
+                (s_ir h) (s_sc h), Ok tt)
+      end
   end.
 
 (* ---------------------------------------------------------------- serialization of the references *)
